@@ -4,7 +4,7 @@ import time
 
 from hypothesis import strategies as st
 
-from vlib.e2e import client, httpref, origin as originmod
+from vlib.e2e import client, dnsstub, httpref, origin as originmod
 from vlib.e2e.env import ProxyEnv
 from vlib.e2e_runner import Result
 
@@ -20,17 +20,36 @@ def strategy(tp):
         "abort": st.one_of(st.none(), st.none(), st.integers(0, 999)),    # permille of the serialized response at which the origin dies
         "segments": st.lists(st.integers(1, 9000), min_size=0, max_size=5),
         "client_close": st.booleans(),
+        # the fetch everybody collapses on is a second forwarding attempt (the first address of the host answers with a complete
+        # re-forwardable error, which Squid drops before it tries the next address)
+        "retry_first": st.sampled_from([None, None, None, 502, 504]),
     })
 
 
 def setup(ctx):
     smp = (ctx.worker % 2 == 1)
-    env = ProxyEnv(ctx, conf="collapsed_forwarding on\nmaximum_object_size_in_memory 1 MB\n", cache_mem="64 MB", workers=2 if smp else 0)
+    dns_addr, dns = _setup_retry(ctx)
+    env = ProxyEnv(ctx, conf="collapsed_forwarding on\nmaximum_object_size_in_memory 1 MB\n", cache_mem="64 MB", workers=2 if smp else 0, dns=dns_addr)
+    env.dns = dns
+    env.front = None
+    try:
+        env.front = originmod.Origin(env.clock, host="127.0.4.%d" % (10 + ctx.worker), port=env.origin.port)
+    except OSError:
+        pass
     env.smp = smp
     return env
 
 
+def _setup_retry(ctx):
+    w = ctx.worker
+    dns_addr = "127.0.55.%d" % (10 + w)
+    return dns_addr, dnsstub.DnsStub(dns_addr)
+
+
 def teardown(env):
+    env.dns.stop()
+    if env.front:
+        env.front.stop()
     env.close()
 
 
@@ -72,6 +91,13 @@ def execute(env, sc):
         else:
             cut = None
     env.origin.script(path, beh)
+    if sc.get("retry_first") and env.front:
+        name = "retry-%s.c18.test" % path.strip("/").replace("_", "-")
+        env.dns.set(name, [env.front.host, "127.0.0.1"])
+        url = "http://%s:%d%s" % (name, env.origin.port, path)
+        env.front.script(path, {"status": sc["retry_first"], "reason": "Try The Next One", "framing": "length", "body_b64": "bm8K",
+                                "headers": [["Cache-Control", "no-store"]]})
+        r.label("retry-first")
     req = ("GET %s HTTP/1.1\r\nHost: x\r\n%s\r\n" % (url, "Connection: close\r\n" if sc["client_close"] else "")).encode()
     conns = []
     results = [None] * (sc["burst"] + 1)
@@ -124,10 +150,18 @@ def execute(env, sc):
     r.label("smp" if env.smp else "single")
     if sc["burst"] >= 5 and sc["hold"] != "mid-body":
         r.nontrivial = True
-    if arrivals_during > 1:
+    retried = bool(sc.get("retry_first") and env.front)
+    if retried:
+        # The "at most one origin request" clause is asserted for fetches that are one forwarding attempt (the statement's
+        # domain).  After a dropped first attempt Squid does not let later requests join the re-forwarded fetch (observed on the
+        # pinned tree: each follower starts its own); that is counted, and only the second clause -- complete and identical, or
+        # visibly incomplete -- is asserted for this class.
+        if arrivals_during > 1 or arrivals > 1:
+            r.label("retry-first:followers-did-not-join-the-reforwarded-fetch")
+    elif arrivals_during > 1:
         r.fail("second-origin-request-while-fetch-in-progress", "%d origin arrivals while the leader's fetch was held (burst %d)" % (arrivals_during, sc["burst"]))
     if cut is None:
-        if arrivals > 1:
+        if arrivals > 1 and not retried:
             r.fail("more-than-one-origin-request-for-collapsed-burst", "%d origin arrivals for a burst of %d (+leader); hold %s" % (arrivals, sc["burst"], sc["hold"]))
     else:
         r.label("origin-aborted")
